@@ -54,6 +54,12 @@ def run(ctx):
             cases.append(E.make_case(rng, s, maxdepth=rng.choice([2, 3]), size=rng.choice([0.3, 1.0]), klass='nested-generated-api', gen_api=True))
     E.run_builds(cases)
     E.embed_no_parent(rng, 40 if not ctx.thorough else 400)        # level 0: bytes as they are, no size field header (documented)
+    # nested / embedded content with alignment arguments above the 512 byte padding block (embed_buffer align 1024, block_align 1024..32768 of
+    # embed_buffer and of a nested start_buffer, a vector aligned to 1024 inside a nested buffer): own harness process per script, one key
+    E.align_above_512(rng, 8 if not ctx.thorough else 80, nested_only=True)
+    # nested root types declared in an INCLUDED schema file with its own file_identifier, through every generated nested-root builder
+    from . import c15_incl
+    c15_incl.run(ctx)
     ver_items, ver_meta, dump_items, dec_lines, dec_meta = [], [], [], [], []
     nnested = 0
     for c in cases:
@@ -111,6 +117,10 @@ def run(ctx):
                 # embed_buffer(align, block_align): the start is a multiple of max(align, 4, block_align) and the parent reports at least that
                 ctx.violation('nested-misaligned:embed-argument', 'embedded buffer %s starts at offset %d of a parent reporting alignment %d; embed_buffer was asked for %d'
                               % (path, start, align, v.c['embed_al']), dict(base, path=path, offset=start, required=v.c['embed_al']))
+            nid, nhp = v.c.get('ident'), 4 if sized else 0
+            if nid and any(nid) and not v.c.get('indep') and not c.gen.gen_api and nb[nhp + 4:nhp + 8] != nid:
+                ctx.violation('nested-identifier-not-stored', 'nested buffer %s was started with identifier %s (4 bytes, not a string) but its header holds %s'
+                              % (path, nid.hex(), nb[nhp + 4:nhp + 8].hex()), dict(base, path=path))
             root = v.a
             ri = bu.roots_of(s).index(root)
             am = req if req < 256 else 0
@@ -163,7 +173,7 @@ def run(ctx):
     ctx.log('%d cases, %d nested buffers extracted' % (len(cases), nnested))
     ctx.cov['generator_histogram']['nested_buffers_extracted'] = nnested
     if dec_lines: ctx.sample({'nested_case': cases[0].h[:300], 'first_nested_dec': dec_lines[0][-200:], 'decoded': mres[0][:200]})
-    ctx.trusted = lib.DEFAULT_TRUSTED + ['checks/builder_util.py (generators, independent reader PyReader, req_align)', 'harness/build_script.c, harness/buf_check.c']
+    ctx.trusted = lib.DEFAULT_TRUSTED + ['checks/builder_util.py (generators, independent reader PyReader, req_align)', 'harness/build_script.c, harness/buf_check.c', 'checks/c15_incl.py + harness/nested_incl.c (include pair: nested root types from another schema file)']
     ctx.assumptions = ['little-endian host', 'nested buffers created with start/end_buffer inside an open parent buffer, create_buffer(is_nested) for struct roots as the generated code does, or embed_buffer at any depth >= 1 (and with no buffer open: plain emission)']
     ctx.finish_args = dict(
         rule='cases: schemas bnest/bmixd (nested table and struct roots, nested in nested up to the generator depth, alignments 1..32 inside nested content), '
